@@ -42,7 +42,7 @@ PROP = {
         "error classes are read off the Display prefix of the error enums: Session/Database::execute hand every error through the task runner as a string",
         "kept out of generation (other properties' territory, each reproduced by hand): NULL in a UNIQUE column, UPDATE of a UNIQUE column, "
         "two open transactions inserting the same unique key (C07); UPDATE on a table with a unique index, which fails with a spurious type error after applying the update (index maintenance)",
-        "commit validation is modelled on the intended design (write sets against the commits since begin); since fix 5898b0f the code records the (table, row) of every insert / update / delete and refuses the second committer (finding writeSetNeverRecorded: fixed), so the model's validation is now compared with the code on every concurrent-writer case",
+        "commit validation is modelled on the intended design (write sets against the commits since begin); since fix 4697923 the code records the (table, row) of every insert / update / delete and refuses the second committer (finding writeSetNeverRecorded: fixed), so the model's validation is now compared with the code on every concurrent-writer case",
     ],
     "partial": "",
     "trusted": ["one history is executed from a single thread: the interleaving is exactly the op order of the case line"],
